@@ -3,60 +3,80 @@
 // All interval-algebra proofs of C16 (units ids, ids_insert, ids_merge, ids_xi, ids_subset, ids_lift) are generic in `T: Merge`
 // and ASSUME the trait contract of units/ids_common/base.rs (merge's contract + the laws law_obeys_eq, law_eq_refl, law_eq_sym,
 // law_eq_trans, law_merge_idem) for every implementor other than `()`.  `ContentAttributes<A>` is the only other implementor in
-// the crate.  This unit extracts its real `eq`, `merge`, `clone`, `new`, `from_attrs` (+ the real `Clone for ContentAttribute`)
-// and PROVES the impl against that contract with
-//   wf(x)           := nodup(x.0@)          no two elements of the attribute list are `==`
-//   eq_spec(a, b)   := eq_real_spec(a.0@, b.0@) = same length && every element of a occurs in b   (what the real `eq` computes:
+// the crate.  This unit extracts its real `eq`, `merge`, `clone`, `new`, `from_attrs` (+ the real structs and the real
+// `Clone for ContentAttribute`) and PROVES the impl against that contract with
+//   wf(x)           := nodup(x@)            no two elements of the attribute list are `==`
+//   eq_spec(a, b)   := eq_real_spec(a@, b@) = same length && every element of a occurs in b     (what the real `eq` computes:
 //                      proved, `ensures` of eq)
-//   merge_spec(a,b) := the value whose list is merge_seq(a.0@, b.0@) = a followed by the elements of b that do not occur in what
-//                      has been built so far (b's order, first occurrences): exactly what the loop builds (proved)
+//   merge_spec(a,b) := the value whose list is merge_seq(a@, b@) = a followed by the elements of b that do not occur in what has
+//                      been built so far (b's order, first occurrences): exactly what the loop builds (proved)
 //
 // PROVED
 //   (1) lemma_eq_is_set_equality: on wf values eq_real_spec(a, b) <==> same_set(a, b) (forall x: x occurs in a <==> x occurs in
 //       b); hence `==` restricted to wf values is an equivalence: law_eq_refl / law_eq_sym / law_eq_trans.  Symmetry is the
-//       pigeonhole argument lemma_pigeonhole / lemma_covers (induction, removing one element).  Symmetry only needs wf of the
-//       LEFT operand; it is FALSE without it (see FINDING).
-//   (2) merge: preserves wf, computes merge_spec; law_merge_idem (a ~ b ==> merge_seq(a, b) == a: nothing is appended).
-//   (3) clone returns a structurally equal value (base.rs axiom_clone_merge is a THEOREM for this implementor);
-//       new() is wf and empty.
+//       pigeonhole argument (lemma_pigeonhole, lemma_covers: induction, removing one element).  lemma_eq_sym: symmetry needs wf
+//       of the LEFT operand only; it is FALSE without it (lemma_witness_asymmetry, see FINDING).
+//   (2) merge: preserves wf and computes merge_spec (the inherited trait contract + the same over the lists);
+//       law_merge_idem (a ~ b ==> merge_seq(a, b) == a: nothing is appended); lemma_merge_seq_union: merge is the set union,
+//       lemma_merge_seq_wf: `a` stays a prefix.
+//   (3) clone returns a structurally equal value (base.rs axiom_clone_merge is a THEOREM for this implementor, given
+//       axiom_vec_value_is_contents); new() is empty and wf.
 //
 // TRUSTED (each with its documented contract at the declaration)
 //   axiom_attr_eq_is_equivalence   the ONE element-equality axiom group: derived `==` of ContentAttribute<A>
 //                                  (Arc<{name: String, value: A}>, A: Eq) obeys its eq_spec and is an equivalence relation.
-//                                  The derived `PartialEq for ContentAttribute` itself is written out as an external_body item.
-//   <[T]>::contains                std: "Returns true if the slice contains an element with the given value." (vstd has no spec)
+//                                  The derived `PartialEq for ContentAttribute` itself is written out as an external_body item
+//                                  (never verified, only its existence is needed); its eq_spec stays uninterpreted (OPAQUE).
+//   <[T]>::contains                std: "Returns true if the slice contains an element with the given value." (vstd: no spec)
 //   vx_iter_all                    std Iterator::all over slice::iter(): "Tests if every element of the iterator matches a
 //                                  predicate."  Body = the std call (like vx_partition_point / rule R2); reached through the logged
-//                                  SUB `self.0.iter().all(|a| other.0.contains(a))` -> `vx_iter_all(&self.0, |a| other.0.contains(a))`.  See EXTRACTOR GAPS.  The REST of `eq`
-//                                  (length check, early return, the closure) is the real text and is VERIFIED.
+//                                  SUB `self.0.iter().all(|a| other.0.contains(a))` -> `vx_iter_all(&self.0, |a| other.0.contains(a))`.
+//                                  See EXTRACTOR GAPS.  The REST of `eq` (length check, early return, the closure) is the real
+//                                  text and is VERIFIED: `eq`'s body is NOT trusted.
 //   axiom_vec_value_is_contents    the mathematical value of a (Small)Vec is its element sequence (vstd has ext-equality axioms for
-//                                  Seq / slice / array but none for Vec).  Needed because base.rs states merge's and clone's
-//                                  results with structural `==` on the implementor.
+//                                  Seq / slice / array but none for Vec; vstd has no other spec observation of a Vec).  Needed
+//                                  because base.rs states merge's and clone's results with structural `==` on the implementor.
+//   Vec::dedup                     std contract; used ONLY by the failing FINDING obligation of IdMap::from_set
 //   vstd's own specifications of Vec::{new, len, push, clone, iter}, Arc::clone
 //
 // REWRITES  R1 (SmallVec -> Vec), SUB `in &other.0` -> `in other.0.iter()` (std: IntoIterator for &SmallVec / &Vec is iter()),
-//   SUB for Iterator::all (above), SUB `attrs.into()` -> `attrs` in the IdMap::insert step (SmallVec::from(Vec) keeps the elements;
-//   after R1 the conversion is Vec -> Vec), R18 statement region for the IdMap::insert step.
+//   SUB for Iterator::all (above), SUB `attrs.into()` -> `attrs` in the two IdMap steps (SmallVec::from(Vec) keeps the elements;
+//   after R1 the conversion is Vec -> Vec), R18 statement regions for the two IdMap steps (`ensure_attrs` dropped: it replaces
+//   each element by an `==` one from the interning cache, it neither removes nor reorders).
 //
-// FINDING (named obligations, EXPECTED TO FAIL): "every value reachable through the public constructors is wf"
-//     ids_attrs::from_attrs::post         :: r.wf()                 ContentAttributes::from_attrs(attrs) takes the vector as is
-//     ids_attrs::idmap_insert_attrs::post :: content_attrs.wf()     IdMap::insert(range, attrs) wraps the caller's Vec as is
-//   (the same holds for IdMap::from_set: `attrs.dedup()` removes ADJACENT duplicates only, [a, b, a] survives; for
-//   AttrRange::with_attrs; and for IdMap::decode: `attrs.push(visited_attributions[attr_id].clone())` with a repeated attr_id
-//   read from the wire.)  ids_lift::idmap_insert REQUIRES content_attrs.wf(); nothing establishes it.
+// FINDING (named obligations, EXPECTED TO FAIL): "every value that reaches the interval layer through the public API is wf"
+//     ids_attrs::from_attrs::post           :: nodup(r@)            ContentAttributes::from_attrs(attrs) takes the vector as is
+//     ids_attrs::idmap_insert_attrs::post   :: content_attrs.wf()   IdMap::insert(range, attrs) wraps the caller's Vec as is
+//     ids_attrs::idmap_from_set_attrs::post :: content_attrs.wf()   IdMap::from_set: `attrs.dedup()` removes ADJACENT duplicates
+//                                                                   only, [a, b, a] survives (lemma_witness_dedup)
+//   (not lifted, same defect: AttrRange::with_attrs; IdMap::decode: `attrs.push(visited_attributions[attr_id].clone())` with an
+//   attr_id repeated on the wire.)  ids_lift::idmap_insert REQUIRES content_attrs.wf(); nothing establishes it.
 //   Witness: x = [a, a], y = [a, b] with a != b.   x == y is TRUE (same length, every element of x occurs in y) but y == x is
-//   FALSE (b does not occur in x): `==` is not symmetric, so law_eq_sym (A3) is false for reachable values, "equal sets compare
-//   equal" breaks and the coalescing of adjacent ranges (push_coalesced compares `last.1 == value`) depends on the order of
-//   insertion.  lemma_witness_asymmetry proves this for every pair a != b from the spec of the real `eq`.
+//   FALSE (b does not occur in x): `==` is not symmetric, so law_eq_sym (A3) is false for reachable values and "equal sets
+//   compare equal" breaks.  lemma_witness_asymmetry proves this for every pair a != b from the spec of the real `eq`.
+//   Replay on the real crate (units/ids_attrs/replay.rs, public API only, a = ("k","a"), b = ("k","b"), client 1):
+//     from_attrs([a,a]) == from_attrs([a,b])  -> true;   from_attrs([a,b]) == from_attrs([a,a])  -> false
+//     m.insert([0,3), vec![a,a]); m.insert([3,6), vec![a,b])   -> ONE entry [0..6) [a,a]: push_coalesced's `last.1 == value`
+//         is true, the ranges are coalesced and attribute b is LOST for clocks 3..6 (attributions(clock 4) = [a,a]); with
+//         vec![a] instead of vec![a,a] the result is [0..3) [a]; [3..6) [a,b] as it should be
+//     p = {[0,3): [a,a]}, q = {[0,3): [a,b]}:  p == q -> true, q == p -> false;  p.intersect_with(q) = [a,a,b],
+//         q.intersect_with(p) = [a,b], and the two results are != in both directions
+//     IdMap::from_set({0..3}, vec![a,b,a]) stores [a,b,a] and is != from_set({0..3}, vec![a,b])
 //
 // EXTRACTOR GAPS
 //   * `X.iter().all(|a| P)`: this Verus ACCEPTS the call (Iterator is an external trait spec) but vstd gives `all` NO postcondition
 //     (the result is an arbitrary bool).  An `assume_specification` for `<slice::Iter<T> as Iterator>::all` is possible only through
-//     an uninterpreted proxy of `IteratorSpec::remaining` (direct use is rejected as a cyclic definition) and cannot be used here
-//     because the call is the function's tail expression on a temporary iterator: no proof hint can follow it and the quantifier
-//     triggers of vstd's `iter()` postcondition do not line up.  A mechanical rule "X.iter().all(|a| P)" -> index loop (like R6) or
-//     -> `vx_iter_all(&X, |a| P)` (like R2) would remove the hand-written SUB.
-//   * a trait-method impl cannot carry `requires`: nothing needed here (merge's `requires wf` is inherited from the trait).
+//     an uninterpreted proxy of `IteratorSpec::remaining` (direct use is rejected as a cyclic definition) and is not usable here:
+//     the call is the function's tail expression on a temporary iterator, no proof hint can follow it, and the quantifier
+//     triggers of vstd's `iter()` postcondition do not line up with a spec over the list.  A mechanical rule
+//     "X.iter().all(|a| P)" -> `vx_iter_all(&X, |a| P)` (like R2) or -> index loop (like R6) would replace the hand-written SUB
+//     (which has to sit in the unit-wide rules: `|` is the field separator of an extract line, and SUB values need balanced
+//     parentheses).
+//   * the inherited postcondition of a trait-method impl (PartialEq::eq: `obeys_eq_spec() ==> r == self.eq_spec(other)`) is
+//     reported by Verus at vstd's std_specs/cmp.rs:21; the runner maps that to line 21 of the assembled file and labels it
+//     `ids_attrs::?::post` (lemma level).  The clause is therefore spelled out as an own `ensures` of `eq` (ids_attrs::eq::post).
+//   * a lost structural anchor of a proof hint is dropped silently by the lenient splicer (I first wrote `stmt:expr
+//     ContentAttributes` for a tail expression that is classified `stmt:call ContentAttributes`).
 //
 // Function bodies are pulled from /repo on every run by vx/extract.py.
 #![feature(allocator_api)]
